@@ -128,6 +128,13 @@ class Env:
         if self.kind.startswith("journal_file"):
             self.fctx = faultfs.Ctx(self.sched)
             faultfs.install(self.fctx)
+        if self.kind == "journal_redis":
+            # snapshots every second study / trial: the final view (a fresh worker) then starts
+            # from a snapshot taken during the race plus the tail of the log
+            import optuna.storages.journal._storage as js
+
+            self._old_interval = js.SNAPSHOT_INTERVAL
+            js.SNAPSHOT_INTERVAL = 2
         # the set-up storage (pre-history) and the workers' storages
         self.setup = self.new_storage()
         return self
@@ -153,6 +160,10 @@ class Env:
     def __exit__(self, *a: Any) -> None:
         if self.fctx is not None:
             faultfs.uninstall()
+        if self.kind == "journal_redis":
+            import optuna.storages.journal._storage as js
+
+            js.SNAPSHOT_INTERVAL = self._old_interval
         for s in self._engines:
             try:
                 s.scoped_session.remove()
